@@ -61,6 +61,7 @@ def unhex (s : String) : String := if s = "-" then "" else s
 /-- `chain args ann` → the drawing call. -/
 def parseDraw (kind chain args ann : String) : Option DrawOp := do
   if kind = "hidecursor" then return .hideCursor
+  if kind = "mouseshape" then return .mouseShape (unhex ann)
   let steps ← (chain.splitOn "/").mapM C11.parseStep?
   let wins ← C11.buildChain steps
   let win ← wins.getLast?
